@@ -23,6 +23,7 @@ RULES_DOC["X4"] = common.X4_DOC
 RULES_DOC["R7"] = "= C19.R2/R3: a timed-out waiter is unlinked completely (both neighbours, head and tail) before the wait returns: a later signal is not consumed by a stale node"
 RULES_DOC["X5"] = common.X5_DOC
 RULES_DOC["X6"] = common.X6_DOC
+RULES_DOC["R9"] = "= C12.R3: a waiter with a pending cancel request is not terminated inside the suspend callback: it would stay linked in the wait list and the next signal would be consumed by (and resume) a unit that no longer waits"
 RULES_DOC["R8"] = "= C19.R9: the deadline handed to the timed wait is the instant the caller's timespec names"
 RULES_DOC.update({
     "R1": "wait/timedwait: mutex unlock inside the cond-lock section, then lock-transferring enqueue on the same cond, mutex re-locked last",
@@ -398,3 +399,5 @@ def run(P, rep, tier):
     common.borrow(rep, P, C19.rule_R2, "R7")
     common.borrow(rep, P, C19.rule_R3, "R7")
     common.borrow(rep, P, C19.rule_R9, "R8")
+    from . import C12
+    common.borrow(rep, P, C12.rule_R3, "R9")
